@@ -98,6 +98,7 @@ impl Scenario {
     /// Fresh world with prelude + history replayed (no observation).
     pub fn replay(&self, hist: &[Op]) -> World {
         let mut w = World::new(self.cfg.clone());
+        w.trace_base = self.prelude.len();
         for op in self.prelude.iter().chain(hist.iter()) {
             if w.dead {
                 break;
@@ -442,6 +443,9 @@ impl Report {
 
     /// Print VIOLATION / KNOWN-FINDING lines, write replays and evidence, return the exit code.
     pub fn finish(mut self) -> i32 {
+        if crate::util::DEBUG_PANICKED.load(std::sync::atomic::Ordering::Relaxed) {
+            self.cov("state_fingerprint_degraded", serde_json::json!("the Debug output of the VolumeManager panicked or no longer shows the cached chain position; states were told apart by medium, model and whatever Debug still shows"));
+        }
         let known = load_known();
         let dir = verif_dir();
         let _ = std::fs::create_dir_all(dir.join("evidence"));
